@@ -14,6 +14,7 @@ Open finding C16-K6 (same variable name at two inheritance levels): `same_name_s
 import NV.C16.Model
 import NV.C16.Tree
 import NV.C16.ProofHash
+import NV.C16.Globals
 
 namespace NV.C16.Witness
 
@@ -137,9 +138,45 @@ open NV.C16.Hash in
 set, so it belongs into bucket 14 of the doubled table — the changed code links it into bucket 6, where no lookup of 224
 (`14 & 15`) finds it, while the code as it is does -/
 theorem old_mask_loses_the_key :
+    -- (the witness input is chosen for FILL_PERCENT = 80, 8 initial buckets, hash shift 4: with other constants the
+    -- statement is void instead of false)
+    if Hash.fillPercent = 80 ∧ NV.Gen.C16.hashShift = 4 then
     ((([16, 32, 48, 64, 80, 224] : List Nat).foldl (fun (t : Option (Tbl Nat)) k => t.bind (fun t => insertOldMask intHash t k))
         (some (empty 3))).map (fun t => find intHash t 224)) = some false ∧
-    ((insertAll intHash (empty 3) [16, 32, 48, 64, 80, 224]).map (fun t => find intHash t 224)) = some true := by
+    ((insertAll intHash (empty 3) [16, 32, 48, 64, 80, 224]).map (fun t => find intHash t 224)) = some true
+    else True := by
   decide
+
+/-! ### why `restore_ignores_stale_state` is not vacuous: the code without the reset at its head
+
+(the independently written change C16-5 left `safe_restore_svalue` without it) -/
+
+/-- after a save refused as "nested too deep" the counter stands at 26 and there is no table: restoring the valid text
+`({1,})` from that state dereferences the NULL table; with the reset it restores -/
+theorem stale_counter_without_reset :
+    restoreTextFrom unitF asciiMb ⟨26, none⟩ [40, 123, 49, 44, 125, 41] = Res.crash ∧
+    restoreSvalueG unitF asciiMb ⟨26, none⟩ [40, 123, 49, 44, 125, 41] = Res.ok (.arr (.cons (.int 1) .nil)) := by
+  refine ⟨rfl, rfl⟩
+
+/-- after a restore that ended in "Illegal array size" the counter is set and the table allocated: the valid text
+`({1,2,})` restored from the state (1, [0]) comes back as the EMPTY array, without any error -/
+theorem stale_table_gives_wrong_value :
+    restoreTextFrom unitF asciiMb ⟨1, some [0]⟩ [40, 123, 49, 44, 50, 44, 125, 41] = Res.ok (.arr .nil) := by rfl
+
+/-- and a save entered with a stale counter refuses a value of depth 2 as "nested too deep" -/
+theorem stale_counter_refuses_save :
+    saveSizeFrom unitF ⟨24, none⟩ (.arr (.cons (.arr .nil) .nil)) = none ∧
+    (saveSizeG unitF ⟨24, none⟩ (.arr (.cons (.arr .nil) .nil))).isSome = true := by
+  refine ⟨by decide, by decide⟩
+
+/-- the table released but its pointer kept (capacity 0, pointer set): the growth loop `while ((cap <<= 1) <= depth)`
+never gets above 0 — the model's fuel runs out for every fuel -/
+theorem zero_capacity_with_a_table_never_ends (depth fuel : Nat) : ensure ⟨true, 0⟩ depth fuel = none := by
+  have h : ∀ f, growCap depth f 0 = none := by
+    intro f
+    induction f with
+    | zero => rfl
+    | succ f ih => rw [growCap]; simp [ih]
+  simp [ensure, h]
 
 end NV.C16.Witness
